@@ -101,7 +101,9 @@ func (o *Optimizer) buildFinalPlan(s Storage, fp Plan, stmt *SelectStmt) (FinalP
 				break
 			}
 		}
-		hasAggr = allInSelect
+		// A select list that already holds an aggregate stays an aggregate
+		// statement whatever the GROUP BY list names
+		hasAggr = hasAggr || allInSelect
 	}
 	var ffp FinalPlan
 	if !hasAggr && stmt.GroupBy != nil && len(stmt.GroupBy.Fields) > 0 {
